@@ -51,33 +51,24 @@ Print Assumptions C12_all_or_nothing_guarded.
 (* zone invariants after every message of every history                                     *)
 (* ---------------------------------------------------------------------------------------- *)
 
-(* one step *)
+(* The only remaining guard is Known_inv = "the update section adds an SOA whose owner is not the
+   apex" (finding C12-soa-not-apex, open).  The former guards for "delete all RRsets" at the apex
+   and for the serial at 2^32-1 are gone with fixes 9a1aca9 and 118f816. *)
+
+(* one step: exactly one SOA, apex NS, CNAME exclusive afterwards, and no panic, in every build *)
 Theorem C12_invariants_step_guarded : forall ovf o z m,
-  WF o z -> Known_inv o m = false -> snd (update ovf o z m) <> Panicked ->
-  WF o (fst (update ovf o z m)).
-Proof. exact update_WF. Qed.
+  WF o z -> Known_inv o m = false ->
+  WF o (fst (update ovf o z m)) /\ snd (update ovf o z m) <> Panicked.
+Proof. intros. split; [now apply update_WF|now apply update_no_panic]. Qed.
 Print Assumptions C12_invariants_step_guarded.
 
-(* every history, builds without overflow checks: exactly one SOA, apex NS, CNAME exclusive
-   after every message, and no message panics *)
-Theorem C12_invariants_history_guarded : forall o z ms,
+(* every history, every build, including histories that cross serial 2^32-1 and histories that
+   "delete all RRsets" at the apex: the invariants hold after every message and none panics *)
+Theorem C12_invariants_history_guarded : forall ovf o z ms,
   WF o z -> Forall (fun m => Known_inv o m = false) ms ->
-  Forall (fun zr => WF o (fst zr) /\ snd zr <> Panicked) (run false o z ms).
-Proof.
-  intros o z ms W Hk. pose proof (run_release_no_panic o ms z W Hk) as Hp.
-  pose proof (run_WF false o ms z W Hk Hp) as Hw.
-  induction (run false o z ms) as [|x l IH]; [constructor|].
-  inversion Hp; inversion Hw; subst. constructor; auto.
-Qed.
-Print Assumptions C12_invariants_history_guarded.
-
-(* every history, any build: the invariants hold after every message up to the first panic *)
-Theorem C12_invariants_until_panic_guarded : forall ovf o z ms,
-  WF o z -> Forall (fun m => Known_inv o m = false) ms ->
-  Forall (fun zr => snd zr <> Panicked) (run ovf o z ms) ->
-  Forall (fun zr => WF o (fst zr)) (run ovf o z ms).
+  Forall (fun zr => WF o (fst zr) /\ snd zr <> Panicked) (run ovf o z ms).
 Proof. intros. now apply run_WF. Qed.
-Print Assumptions C12_invariants_until_panic_guarded.
+Print Assumptions C12_invariants_history_guarded.
 
 Definition o_ex : name := [2; 1].
 Definition soa_ex s := mkRR o_ex cIN 300 tSOA (DSoa s 7).
@@ -86,17 +77,18 @@ Definition z_ex (s : N) : zone :=
          mkRR [6; 2; 1] cIN 300 tCNAME (DCname [3; 2; 1]); mkRR [5; 2; 1] cIN 300 tNS (DGen 3)].
 Definition sign us := mkMsg true [] us.
 
-(* C12-apex-delete-all: "delete all RRsets from a name" at the apex removes SOA and NS *)
-Theorem C12_invariants_refuted_apex_delete_all :
-  exists o z m, WF o z /\ snd (update false o z m) <> Panicked /\ ~ WF o (fst (update false o z m)).
-Proof.
-  exists o_ex, (z_ex 10), (sign [mkRR o_ex cANY 0 tANY DNone]).
-  split; [apply wfb_sound; vm_compute; reflexivity|]. split; [vm_compute; discriminate|].
-  intros [(s & r & t & H) _ _ _ _]. vm_compute in H. discriminate.
-Qed.
-Print Assumptions C12_invariants_refuted_apex_delete_all.
+(* fix 9a1aca9 (was C12_invariants_refuted_apex_delete_all): "delete all RRsets from a name"
+   (class ANY, type ANY) at the apex keeps exactly the apex SOA and NS RRsets, removes every other
+   RRset of the apex, and touches no other name — for every zone *)
+Theorem C12_apex_delete_all_keeps_soa_ns : forall o z u z' b,
+  apex_wipe o u = true -> apply_rr o z u = Some (z', b) ->
+  zget z' (o, tSOA) = zget z (o, tSOA) /\ zget z' (o, tNS) = zget z (o, tNS) /\
+  (forall t, t <> tSOA -> t <> tNS -> zget z' (o, t) = None) /\
+  (forall n t, n <> o -> zget z' (n, t) = zget z (n, t)).
+Proof. exact apex_delete_all_spec. Qed.
+Print Assumptions C12_apex_delete_all_keeps_soa_ns.
 
-(* C12-soa-not-apex: an SOA owned by another name is added: two SOAs *)
+(* C12-soa-not-apex (open): an SOA owned by another name is added: two SOAs *)
 Theorem C12_invariants_refuted_soa_not_apex :
   exists o z m, WF o z /\ snd (update false o z m) = Rc NoError /\ ~ WF o (fst (update false o z m)).
 Proof.
@@ -107,54 +99,40 @@ Proof.
 Qed.
 Print Assumptions C12_invariants_refuted_soa_not_apex.
 
-(* C12-serial-arith (F6): with overflow checks the increment at 2^32-1 panics AFTER the SOA
-   RRset has been taken out of the map: the zone is left without SOA *)
-Theorem C12_invariants_refuted_serial_overflow :
-  exists o z m, WF o z /\ Known_inv o m = false /\
-                snd (update true o z m) = Panicked /\ ~ WF o (fst (update true o z m)).
-Proof.
-  exists o_ex, (z_ex 4294967295), (sign [mkRR [3; 2; 1] cIN 300 tA (DGen 2)]).
-  split; [apply wfb_sound; vm_compute; reflexivity|]. split; [reflexivity|]. split; [vm_compute; reflexivity|].
-  intros [(s & r & t & H) _ _ _ _]. vm_compute in H. discriminate.
-Qed.
-Print Assumptions C12_invariants_refuted_serial_overflow.
-
-(* no panic below the top serial: a step panics only in the class "serial is 2^32-1, or the
-   message itself carries an SOA" *)
-Theorem C12_no_panic_guarded : forall ovf o z m,
-  WF o z -> Known_inv o m = false -> soa_serials (m_upd m) = [] -> serial o z <> maxs ->
-  snd (update ovf o z m) <> Panicked.
-Proof.
-  intros ovf o z m W Hk Hs Hm. pose proof (Known_inv_false _ _ Hk) as Hok. unfold update.
-  destruct (negb (m_auth m)); [discriminate|].
-  destruct (negb (verify_prerequisites o z (m_pre m) =? NoError)); [discriminate|].
-  destruct (negb (pre_scan o (m_upd m) =? NoError)) eqn:Ep; [discriminate|].
-  apply negb_false_iff, N.eqb_eq in Ep.
-  destruct (update_records_spec ovf o z (m_upd m) W Hok Ep) as (z1 & upd & Ha & W1 & [[_ ->]|(_ & s & r & ttl & Hg & Hn)]);
-    [discriminate|].
-  pose proof (apply_rrs_soa_same _ _ _ _ _ _ _ W Hok Hs Ha) as Hsame. rewrite Hg in Hsame.
-  assert (serial o z = s) as Es by (unfold serial; now rewrite <- Hsame).
-  unfold next_serial in Hn. destruct (s =? two32 - 1) eqn:E.
-  - apply N.eqb_eq in E. unfold maxs in Hm. congruence.
-  - cbn [andb] in Hn. rewrite Hn. discriminate.
-Qed.
-Print Assumptions C12_no_panic_guarded.
+(* fix 118f816 (was C12_invariants_refuted_serial_overflow / C12_no_panic_guarded): no message
+   panics, whatever the serial and whatever SOA it carries, in builds with and without overflow
+   checks *)
+Theorem C12_no_panic : forall ovf o z m,
+  WF o z -> Known_inv o m = false -> snd (update ovf o z m) <> Panicked.
+Proof. exact update_no_panic. Qed.
+Print Assumptions C12_no_panic.
 
 (* ---------------------------------------------------------------------------------------- *)
 (* the serial                                                                               *)
 (* ---------------------------------------------------------------------------------------- *)
 
-(* if an accepted message changed anything at all, the SOA serial has strictly advanced in
-   RFC 1982 arithmetic (by exactly one, wrapping in builds without overflow checks) *)
+(* if an accepted message changed anything at all, the serial is the successor modulo 2^32 of the
+   serial the zone had once the update section was applied (which may itself have set a newer
+   SOA), and that is strictly newer in RFC 1982 arithmetic: 0 follows 2^32-1 *)
+Theorem C12_changed_implies_serial_successor_guarded : forall ovf o z m z',
+  WF o z -> Known_inv o m = false -> update ovf o z m = (z', Rc NoError) -> z' <> z ->
+  exists z1 upd, apply_rrs o z false (m_upd m) = (z1, upd, true) /\
+    serial o z' = (serial o z1 + 1) mod two32 /\ serial_lt (serial o z1) (serial o z') = true.
+Proof. exact update_changed_successor. Qed.
+Print Assumptions C12_changed_implies_serial_successor_guarded.
+
+(* without SOA RDATA in the message: strictly advanced (RFC 1982) relative to the serial before
+   the message, by exactly one, wrap included, in every build *)
 Theorem C12_changed_implies_serial_advanced_guarded : forall ovf o z m z',
-  WF o z -> serial32 o z -> Known_inv o m = false -> soa_serials (m_upd m) = [] ->
+  WF o z -> Known_inv o m = false -> soa_serials (m_upd m) = [] ->
   update ovf o z m = (z', Rc NoError) -> z' <> z ->
   serial_lt (serial o z) (serial o z') = true /\ serial o z' = (serial o z + 1) mod two32.
 Proof. exact update_changed_advances. Qed.
 Print Assumptions C12_changed_implies_serial_advanced_guarded.
 
 (* the converse ("serial moved => content changed") is false: re-adding the CNAME that is
-   already there bumps the serial although the zone minus its SOA RRset is identical *)
+   already there bumps the serial although the zone minus its SOA RRset is identical
+   (finding C12-serial-bump-without-change, open) *)
 Theorem C12_serial_moved_implies_changed_refuted :
   exists o z m z', WF o z /\ Known_inv o m = false /\ update false o z m = (z', Rc NoError) /\
     zdel z' (o, tSOA) = zdel z (o, tSOA) /\ serial o z' <> serial o z.
@@ -166,15 +144,11 @@ Proof.
 Qed.
 Print Assumptions C12_serial_moved_implies_changed_refuted.
 
-(* F6: an SOA update is compared with plain `<=`: a serial that is newer in RFC 1982
-   arithmetic (wrapped) is ignored, one that is older (more than 2^31 ahead) is accepted *)
-Theorem C12_soa_update_rfc1982_refuted :
-  (exists es ns, serial_lt es ns = true /\ soa_newer ns es = false) /\
-  (exists es ns, serial_lt es ns = false /\ soa_newer ns es = true).
-Proof.
-  split; [exists 4294967293, 1|exists 924, 2147484573]; split; vm_compute; reflexivity.
-Qed.
-Print Assumptions C12_soa_update_rfc1982_refuted.
+(* fix 118f816 (was C12_soa_update_rfc1982_refuted): an SOA update replaces the zone SOA exactly
+   when its serial is newer in RFC 1982 arithmetic (Spec.serial_lt, written from RFC 1982 3.2) *)
+Theorem C12_soa_update_is_rfc1982 : forall ns es, soa_newer ns es = serial_lt es ns.
+Proof. exact soa_newer_serial_lt. Qed.
+Print Assumptions C12_soa_update_is_rfc1982.
 
 (* ---------------------------------------------------------------------------------------- *)
 (* accepted contents are RFC 2136 3.4.2                                                     *)
@@ -209,8 +183,8 @@ Print Assumptions C12_update_is_rfc_refuted.
 (* non-vacuity of the hypotheses                                                            *)
 (* ---------------------------------------------------------------------------------------- *)
 
-Example C12_ex_wf : WF o_ex (z_ex 10) /\ serial32 o_ex (z_ex 10).
-Proof. split; [apply wfb_sound; vm_compute; reflexivity|vm_compute; reflexivity]. Qed.
+Example C12_ex_wf : WF o_ex (z_ex 10).
+Proof. apply wfb_sound; vm_compute; reflexivity. Qed.
 
 (* a three-message history outside the known classes: add, failing prerequisite, delete *)
 Example C12_ex_history :
@@ -228,18 +202,19 @@ Example C12_ex_error :
   Known_inv o_ex m = false /\ snd (update false o_ex (z_ex 10) m) = Rc YXRRSet.
 Proof. cbv zeta. split; vm_compute; reflexivity. Qed.
 
-(* a changing message without SOA RDATA at the top serial, release build: wraps to 0, which is
-   "advanced" in RFC 1982 arithmetic (C12_changed_implies_serial_advanced_guarded) *)
-(* an update section of all four forms of table 3.4.2.6 outside the known classes *)
-Example C12_ex_rfc :
-  let us := [mkRR [3; 2; 1] cIN 60 tA (DGen 2); mkRR [9; 2; 1] cIN 60 tCNAME (DCname [3; 2; 1]);
-             mkRR [3; 2; 1] cNONE 0 tA (DGen 1); mkRR [6; 2; 1] cANY 0 tCNAME DNone;
-             mkRR [9; 2; 1] cANY 0 tANY DNone; mkRR o_ex cIN 300 tSOA (DSoa 12 8)] in
-  all_goodb o_ex (z_ex 10) us = true /\ pre_scan o_ex us = NoError.
-Proof. cbv zeta. split; vm_compute; reflexivity. Qed.
-
+(* a changing message at the top serial, build with overflow checks: wraps to 0, which is
+   "advanced" in RFC 1982 arithmetic (C12_changed_implies_serial_advanced_guarded, C12_no_panic) *)
 Example C12_ex_wrap :
   let m := sign [mkRR [3; 2; 1] cIN 60 tA (DGen 2)] in
-  soa_serials (m_upd m) = [] /\ snd (update false o_ex (z_ex 4294967295) m) = Rc NoError /\
-  serial o_ex (fst (update false o_ex (z_ex 4294967295) m)) = 0 /\ serial_lt 4294967295 0 = true.
+  soa_serials (m_upd m) = [] /\ snd (update true o_ex (z_ex 4294967295) m) = Rc NoError /\
+  serial o_ex (fst (update true o_ex (z_ex 4294967295) m)) = 0 /\ serial_lt 4294967295 0 = true.
 Proof. cbv zeta. repeat split; vm_compute; reflexivity. Qed.
+
+(* "delete all RRsets" at the apex on a concrete zone: the apex keeps SOA and NS, the invariants
+   hold, the answer is NOERROR (C12_apex_delete_all_keeps_soa_ns, C12_invariants_step_guarded) *)
+Example C12_ex_apex_delete_all :
+  let z := build [soa_ex 10; mkRR o_ex cIN 300 tNS (DGen 1); mkRR o_ex cIN 300 tA (DGen 1)] in
+  let m := sign [mkRR o_ex cANY 0 tANY DNone] in
+  WF o_ex z /\ Known_inv o_ex m = false /\ snd (update true o_ex z m) = Rc NoError /\
+  zget (fst (update true o_ex z m)) (o_ex, tA) = None /\ serial o_ex (fst (update true o_ex z m)) = 11.
+Proof. cbv zeta. split; [apply wfb_sound; vm_compute; reflexivity|]. repeat split; vm_compute; reflexivity. Qed.
